@@ -63,6 +63,11 @@ def diffOwn (fuel : Nat) (a b : Rp) : M D Rp := removeAll c g fuel a (elems c b)
 def diffRef64 (fuel : Nat) (a b : Rp) : M D Rp :=
   extend c g fuel .empty ((elems c a).filter (fun v => !contains c b v))
 
+/-- `&a | &b` for `Set64` (starts from `new()`) -/
+def unionRef64 (fuel : Nat) (a b : Rp) : M D Rp := do
+  let s ← extend c g fuel .empty (elems c a)
+  extend c g fuel s (elems c b)
+
 /-- what `Set64::hash` feeds the hasher: the sorted encoded members -/
 def hashInput (r : Rp) : List Nat := ((elems c r).toArray.qsort (· < ·)).toList
 
